@@ -39,8 +39,6 @@ META = {
         "before it; subscripts on the delete path are discharged by guard "
         "facts.  Nothing is executed."),
     "declined": [
-        "exactly-the-matched-set when one node is matched more than once "
-        "(a second `del parent[i]` removes a different element: run-time)",
         "validity of the coordinates themselves (C02)",
     ],
     "assumptions": ["coordinates handed to the writer satisfy C02"],
@@ -140,15 +138,21 @@ def d3_d4(chk: Check) -> None:
     if not par or not ref:
         raise AnalysisError("_delete_nodes: parent/parentref roles missing")
     ef = Effects(prog)
+    rec = _deletion_record(dn, loop, item, par, ref)
     for site in mutation_sites(dn):
         cls, _ = ef.classify(site)
         if cls in ("fresh", "kwargs", "nondoc"):
+            continue
+        if rec is not None and src(site.receiver) == rec and \
+                site.how == ".append()":
+            # the function's own record of what it has deleted (C04-D10)
             continue
         text = "{} on {}".format(site.how, src(site.receiver))
         recv_root = root_name(site.receiver)
         facts = [f for f in facts_at(site.node) if f.kind == "cond"]
         in_merge = any(isinstance(a, ast.For) and
-                       src(a.iter) == par + ".merge"
+                       src(a.iter) in (par + ".merge",
+                                       "enumerate({}.merge)".format(par))
                        for a in ancestors(site.node))
         key = None
         if isinstance(site.node, ast.Subscript):
@@ -170,10 +174,36 @@ def d3_d4(chk: Check) -> None:
                 if not guard:
                     problems.append("not guarded by a presence or bounds "
                                     "test on `{}`".format(key))
+                if in_merge and key != ref:
+                    # a key contributed by the merged hash may be removed
+                    # only while the parent still *inherits* it: its value
+                    # here equals the merged hash's value for that key
+                    p_if = parent(enclosing_stmt(site.node))
+                    t = src(p_if.test).replace(" ", "") \
+                        if isinstance(p_if, ast.If) else ""
+                    if "{}[{}]==".format(par, key) not in t and \
+                            "=={}[{}]".format(par, key) not in t:
+                        problems.append(
+                            "a key of the merged hash is removed from the "
+                            "parent without testing that the parent's value "
+                            "is the inherited one: keys the parent "
+                            "overrides itself are deleted too")
         elif src(site.receiver) == par + ".merge":
             if not in_merge:
                 problems.append("merge list edited outside the merge-key "
                                 "branch")
+            if site.how == "del[]":
+                # the position deleted is a position *of the merge list*
+                # (enumerate), not a field of its entries: an entry is
+                # (position of the << key in the hash, merged node)
+                from sa.coords import loop_binding
+                lb = loop_binding(key or "", site.node)
+                if not (lb is not None and lb[0] == "index" and
+                        src(lb[1]) == par + ".merge"):
+                    problems.append(
+                        "`{}` is not the enumeration index of `{}.merge`: "
+                        "with several merged anchors (`<<: [*a, *b]`) "
+                        "another reference is removed".format(key, par))
         if site.how not in ("del[]", ".discard()"):
             problems.append("unexpected mutation kind `{}`".format(site.how))
         if problems:
@@ -321,8 +351,14 @@ def d6_always_acts(chk: Check) -> None:
                 acted = True
         return [(acted, excused)]
 
+    rec = _deletion_record(dn, loop, item, par, ref)
+
     def branch(test: ast.AST, st, flow):
         acted, excused = st
+        if _is_gone_test(test, rec, par, ref):
+            # the node at these coordinates was deleted for an earlier
+            # match of the same node (C04-D10 proves the record sound)
+            return [(acted, True)], [st]
         if is_presence(test):
             return [st], [(acted, True)]
         if isinstance(test, ast.BoolOp) and isinstance(test.op, ast.And) \
@@ -588,6 +624,187 @@ def d2b_ascending_gather(chk: Check) -> None:
         raise AnalysisError("list loops of the keyword handlers not found")
 
 
+
+def _deletion_record(dn: FuncInfo, loop: ast.For, item: str, par: str,
+                     ref: str) -> Optional[str]:
+    """Name of the parameter in which _delete_nodes records the coordinates
+    it has deleted so far (a list, fresh per outermost call), or None."""
+    args = dn.node.args
+    names = [a.arg for a in args.args]
+    defaults = dict(zip(reversed(names), reversed(args.defaults)))
+    for nm, dv in defaults.items():
+        if not (isinstance(dv, ast.Constant) and dv.value is None):
+            continue
+        fresh = False
+        for n in dn.node.body:
+            if isinstance(n, ast.If) and \
+                    src(n.test).replace(" ", "") == nm + "isNone" and \
+                    len(n.body) == 1 and isinstance(n.body[0], ast.Assign) \
+                    and src(n.body[0].targets[0]) == nm and \
+                    src(n.body[0].value) in ("[]", "list()"):
+                fresh = True
+        if fresh:
+            return nm
+    return None
+
+
+def _is_gone_test(test: ast.AST, rec: Optional[str], par: str, ref: str
+                  ) -> bool:
+    """`any(par is g.parent and ref == g.parentref for g in rec)`."""
+    if rec is None or not (isinstance(test, ast.Call) and
+                           src(test.func) == "any" and len(test.args) == 1
+                           and isinstance(test.args[0], ast.GeneratorExp)):
+        return False
+    ge = test.args[0]
+    if len(ge.generators) != 1 or ge.generators[0].ifs or \
+            src(ge.generators[0].iter) != rec:
+        return False
+    g = src(ge.generators[0].target)
+    e = ge.elt
+    if not (isinstance(e, ast.BoolOp) and isinstance(e.op, ast.And) and
+            len(e.values) == 2):
+        return False
+    parts = {src(v).replace(" ", "") for v in e.values}
+    ident = {"{}is{}.parent".format(par, g), "{}.parentis{}".format(g, par)}
+    equal = {"{}=={}.parentref".format(ref, g),
+             "{}.parentref=={}".format(g, ref)}
+    return bool(parts & ident) and bool(parts & equal)
+
+
+def d10_at_most_once(chk: Check) -> None:
+    """One node can be matched more than once: by two sub-paths of a
+    collector, or because its container is reachable through an alias as
+    well.  Both matches carry the same (parent object, parentref).  A second
+    `del parent[i]` / discard at those coordinates removes whichever node
+    has taken the place of the first (or raises KeyError from a set), so
+    every deleting arm must (a) be reached only when no recorded deletion
+    has the same parent object and parentref, and (b) record its item
+    before deleting; the record is shared with the recursive calls that
+    unpack virtual results and is fresh for each outermost call."""
+    prog = chk.prog
+    chk.rule("C04-D10", "a node matched more than once is deleted once: "
+             "every deleting arm of _delete_nodes is reached only when no "
+             "recorded deletion has the same parent object and parentref, "
+             "records its item first, and the record is forwarded to the "
+             "recursive calls", floor=4)
+    dn = prog.func("Processor._delete_nodes")
+    loop = [n for n in dn.node.body if isinstance(n, ast.For)][0]
+    item = src(loop.target)
+    roles: Dict[str, str] = {}
+    for n in walk_local(loop):
+        if isinstance(n, ast.Assign) and isinstance(n.value, ast.Attribute) \
+                and src(n.value.value) == item:
+            roles[n.value.attr] = src(n.targets[0])
+    par, ref = roles["parent"], roles["parentref"]
+    rec = _deletion_record(dn, loop, item, par, ref)
+    # deleting sites
+    sites = []
+    for n in walk_local(loop):
+        if isinstance(n, ast.Subscript) and isinstance(n.ctx, ast.Del) and \
+                src(n.value) == par:
+            sites.append(n)
+        if isinstance(n, ast.Call) and isinstance(n.func, ast.Attribute) \
+                and src(n.func.value) == par and \
+                n.func.attr in ("discard", "remove", "pop"):
+            sites.append(n)
+    if len(sites) < 3:
+        raise AnalysisError("_delete_nodes: deleting sites not found")
+    if rec is None:
+        chk.fail("C04-D10", dn, loop, "record of deleted coordinates",
+                 "_delete_nodes keeps no record of the coordinates it has "
+                 "deleted: an element matched twice (two sub-paths of a "
+                 "collector, or a container reachable through an alias) is "
+                 "deleted at the same position twice, which removes the "
+                 "element that follows it")
+        return
+    # top-level ladder arms of the loop body
+    for site in sites:
+        text = "{}: `{}`".format("deleting arm", src(enclosing_stmt(site))
+                                 [:50])
+        # the ladder arm's earlier siblings include the already-gone test
+        # (facts about the record are killed by the append that follows,
+        # so this is read off the ladder itself)
+        neg = []
+        for a in ancestors(site):
+            if a is loop:
+                break
+            if isinstance(a, ast.If):
+                cur2: ast.AST = a
+                while isinstance(parent(cur2), ast.If) and \
+                        cur2 in parent(cur2).orelse and \
+                        len(parent(cur2).orelse) == 1:
+                    cur2 = parent(cur2)
+                    if _is_gone_test(cur2.test, rec, par, ref):
+                        neg.append(cur2)
+        # the arm: outermost statement list below the loop that holds the
+        # site and belongs to an If of the loop body's ladder
+        chain = [a for a in ancestors(site)]
+        arm_body: Optional[List[ast.stmt]] = None
+        top_stmt: Optional[ast.AST] = None
+        prev: ast.AST = site
+        for a in chain:
+            if a is loop:
+                break
+            if isinstance(a, ast.If) and (
+                    parent(a) is loop or (isinstance(parent(a), ast.If) and
+                                          a in parent(a).orelse)):
+                # is this If part of the loop's top-level ladder?
+                cur: ast.AST = a
+                while isinstance(parent(cur), ast.If) and \
+                        cur in parent(cur).orelse:
+                    cur = parent(cur)
+                if parent(cur) is loop:
+                    arm_body = a.body if prev in a.body else a.orelse
+                    top_stmt = prev
+                    break
+            prev = a
+        recorded = False
+        if arm_body is not None and top_stmt in arm_body:
+            for st in arm_body[:arm_body.index(top_stmt)]:
+                if isinstance(st, ast.Expr) and \
+                        isinstance(st.value, ast.Call) and \
+                        src(st.value.func) == rec + ".append" and \
+                        len(st.value.args) == 1 and \
+                        src(st.value.args[0]) == item:
+                    recorded = True
+        problems = []
+        if not neg:
+            problems.append("reached without testing that no recorded "
+                            "deletion has the same parent object and "
+                            "parentref")
+        if not recorded:
+            problems.append("the item is not recorded in `{}` before the "
+                            "deletion".format(rec))
+        if problems:
+            chk.fail("C04-D10", dn, site, text, "; ".join(problems) +
+                     ": a node matched twice is deleted twice (the second "
+                     "deletion removes its neighbour)")
+        else:
+            chk.ok("C04-D10", dn, site, text,
+                   "after `not any(same parent object and parentref in "
+                   "{})` and `{}.append({})`".format(rec, rec, item))
+    # recursion shares the record
+    for c in walk_local(dn.node):
+        if isinstance(c, ast.Call) and src(c.func).endswith("._delete_nodes"):
+            passed = (len(c.args) >= 2 and src(c.args[1]) == rec) or any(
+                k.arg == rec and src(k.value) == rec for k in c.keywords)
+            text = "recursive call `{}`".format(src(c)[:50])
+            if passed:
+                chk.ok("C04-D10", dn, c, text, "shares the record")
+            else:
+                chk.fail("C04-D10", dn, c, text,
+                         "the record of deleted coordinates is not handed "
+                         "to the recursive call: repeats inside a virtual "
+                         "result are not recognised")
+    # only items are recorded, and only by append
+    for n in walk_local(dn.node):
+        if isinstance(n, ast.Call) and isinstance(n.func, ast.Attribute) \
+                and src(n.func.value) == rec and n.func.attr != "append":
+            chk.fail("C04-D10", dn, n, "`{}`".format(src(n)[:50]),
+                     "the record of deleted coordinates is changed other "
+                     "than by appending the current item")
+
+
 def run(chk: Check) -> None:
     d1_d2(chk)
     d3_d4(chk)
@@ -595,6 +812,9 @@ def run(chk: Check) -> None:
     d6_always_acts(chk)
     d5b_empty_list_is_a_node(chk)
     d9_negative_and_empty(chk)
+    d10_at_most_once(chk)
+    from rules.shared import shared_state_rule
+    shared_state_rule(chk, "C04-D11", ("yamlpath/processor.py",), 30)
     d2b_ascending_gather(chk)
     from rules.c06 import falsy_rule
     falsy_rule(chk, "C04-D8", "yamlpath/processor.py", 30,
